@@ -1859,17 +1859,30 @@ def _setitem(self, item: NestedKey, value: Any) -> None:  # noqa: D417
 
     if istuple and len(item) == 1:
         return _setitem(self, item[0], value)
-    if (
-        (
-            isinstance(item, torch.Tensor)
-            and item.dtype == torch.bool
-            and not item.shape
-            and item
+
+    def adds_dim(idx):
+        return (
+            (
+                isinstance(idx, torch.Tensor)
+                and idx.dtype == torch.bool
+                and not idx.shape
+                and idx
+            )
+            or (idx is True)
+            or (idx is None)
         )
-        or (item is True)
-        or (item is None)
-    ) and self.batch_size == ():
-        return self.update(value.squeeze(0))
+
+    items = item if istuple else (item,)
+    if (
+        self.batch_size == ()
+        and any(adds_dim(idx) for idx in items)
+        and all(adds_dim(idx) or idx is Ellipsis for idx in items)
+    ):
+        # the index only adds dims to the one element there is (one per None / True): the
+        # value has them too, unless it is broadcast
+        for _ in range(getattr(value, "ndim", 0)):
+            value = value.squeeze(0)
+        return self.update(value)
 
     if not is_tensorclass(value) and not isinstance(
         value, (TensorDictBase, numbers.Number, Tensor)
